@@ -9,6 +9,10 @@ pub fn generate(scenario: &str, seed: u64, tier: &str) -> Value {
     let prop = it.next().unwrap_or("");
     match family {
         "proxy" => gen::gen_proxy(seed, prop, tier),
+        "keeper" => match prop {
+            "C10" => crate::keeper::gen_c10(seed, tier),
+            _ => crate::keeper::gen_c09(seed, tier),
+        },
         _ => serde_json::json!({"scenario": scenario, "seed": seed, "steps": [], "oracles": []}),
     }
 }
@@ -19,7 +23,42 @@ pub async fn custom_step(run: &mut Run, _idx: usize, kind: &str, step: &Value) -
             oracle::rbac_direct(run, step);
             true
         }
-        _ => false,
+        "audit_map_probe" => {
+            // at a quiescent point every record of an accepted connection must have been consumed
+            // a leftover record matters when the last client connection that used its source port was accepted
+            // by the proxy listener (a connect that was refused never reaches the proxy)
+            let infos = vrt::net::conn_infos();
+            let mut n = 0u64;
+            for k in vrt::kernel::map_keys(vrt::kernel::MAP_AUDIT) {
+                if k.len() != 8 {
+                    continue;
+                }
+                let port = u32::from_ne_bytes([k[4], k[5], k[6], k[7]]) as u16;
+                let last = infos.iter().filter(|c| c.src.port() == port && c.initiator.tgid != vrt::procs::AGENT_PID).max_by_key(|c| c.id);
+                if let Some(c) = last {
+                    if c.accepted && c.actual_dst.to_string() == crate::hosts::PROXY {
+                        n += 1;
+                    }
+                }
+            }
+            run.observations.push(("audit_map_len".into(), vrt::time::now_ns(), serde_json::json!(n)));
+            true
+        }
+        "collect_status" => {
+            if let Some(a) = run.agent.clone() {
+                let st = a.get_agent_status_shared_state();
+                let failed = st.get_all_failed_connection_summary().await.unwrap_or_default();
+                let v: Vec<Value> = failed.iter().map(|f| serde_json::json!({"userName": f.userName, "ip": f.ip, "port": f.port, "processCmdLine": f.processCmdLine, "processFullPath": f.processFullPath, "responseStatus": f.responseStatus, "count": f.count})).collect();
+                run.observations.push(("failed_summary".into(), vrt::time::now_ns(), Value::Array(v)));
+                let ok = st.get_all_connection_summary().await.unwrap_or_default();
+                let v: Vec<Value> = ok.iter().map(|f| serde_json::json!({"userName": f.userName, "ip": f.ip, "port": f.port, "processCmdLine": f.processCmdLine, "processFullPath": f.processFullPath, "responseStatus": f.responseStatus, "count": f.count})).collect();
+                run.observations.push(("conn_summary".into(), vrt::time::now_ns(), Value::Array(v)));
+            }
+            let sj = std::fs::read("/var/log/azure-proxy-agent/status.json").ok().and_then(|d| serde_json::from_slice::<Value>(&d).ok()).unwrap_or(Value::Null);
+            run.observations.push(("status_json".into(), vrt::time::now_ns(), sj));
+            true
+        }
+        other => crate::keeper::custom_step(run, _idx, other, step).await,
     }
 }
 
@@ -28,6 +67,12 @@ pub async fn run(scenario: &str, seed: u64, plan: Value) -> Value {
     let family = run.plan["family"].as_str().unwrap_or("").to_string();
     match family.as_str() {
         "proxy" => oracle::check_proxy(&mut run),
+        "keeper" => {
+            oracle::check_proxy(&mut run);
+            if run.plan["prop"] == "C09" {
+                crate::keeper::check_c09(&mut run);
+            }
+        }
         _ => {}
     }
     crate::oracle::check_panics(&mut run);
